@@ -1,4 +1,5 @@
 import Driver.Wire
+import Driver.OpsOperators
 import PlatypusModel.Model.Gray
 import PlatypusModel.Model.Dominance
 import PlatypusModel.Model.Constraint
@@ -317,7 +318,7 @@ def opsMachine (op : String) : Option (P String) :=
   | _ => none
 
 def dispatch (op : String) (args : List String) : Except String String :=
-  match (opsGray op <|> opsDominance op <|> opsConstraint op <|> opsEps op <|> opsSorting op <|> opsGrid op <|> opsRun op <|> opsSurvival op <|> opsMachine op) with
+  match (opsGray op <|> opsDominance op <|> opsConstraint op <|> opsEps op <|> opsSorting op <|> opsGrid op <|> opsRun op <|> opsSurvival op <|> opsMachine op <|> OpsOperators.opsOperators op) with
   | some p => Wire.run p args
   | none => .error "bad-op"
 
